@@ -8,6 +8,15 @@ package mqtt
 //@ spec
 //@ func isRetryErr(e error) bool  { return asRetryErr(e) != nil }
 //@ func retryOf(e error) retryFn  { return asRetryErr(e).retryFn }
+//@ // caller obligations at the API boundary for SUBSCRIBE / UNSUBSCRIBE requests
+//@ func subscribable(subs []Subscription) bool {
+//@ 	return forall(0, len(subs), func(i int) bool { return subs[i].QoS <= QoS2 && len(subs[i].Topic) <= 0xFFFF }) &&
+//@ 		2+slen(specSubPayload(subs, len(subs))) <= 0xFFFFFFF
+//@ }
+//@ func unsubscribable(topics []string) bool {
+//@ 	return forall(0, len(topics), func(i int) bool { return len(topics[i]) <= 0xFFFF }) &&
+//@ 		2+slen(specUnsubPayload(topics, len(topics))) <= 0xFFFFFFF
+//@ }
 //@ // caller obligations at the API boundary for a message that can be carried
 //@ func carriable(m *Message) bool {
 //@ 	return m != nil && m.QoS <= QoS2 && len(m.Topic) <= 0xFFFF && len(m.Topic)+len(m.Payload)+4 <= 0xFFFFFFF
@@ -129,7 +138,7 @@ package mqtt
 //@ func subscribeImpl
 //@   mode int
 //@   props C01 C07 C11 C15 C19
-//@   requires c != nil && ctx != nil && c.Transport != nil
+//@   requires c != nil && ctx != nil && c.Transport != nil && subscribable(subs)
 //@   assigns c.idLast
 //@   let sig0 *signaller = c.sig
 //@   let n0 int = len(subs)
@@ -142,10 +151,10 @@ package mqtt
 //@   ensures[C07,C11] nil_only_acked: result1 == nil ==> evCount("select") == 1 && evRet[int]("select", 0, 0) == 2 &&
 //@        evArg[chan *pktSubAck]("select", 0, 2) == evArg[chan *pktSubAck]("mapstore:map<uint16,chan *pktSubAck>", 0, 2) &&
 //@        evIndex("(*BaseClient).write", 0) < evIndex("select", 0)
-//@   ensures[C07] count_mismatch: evCount("select") == 1 && evRet[int]("select", 0, 0) == 2 && len(evRet[*pktSubAck]("select", 0, 3).Codes) != n0 ==>
+//@   ensures[C07] count_mismatch: evCount("select") == 1 && evRet[int]("select", 0, 0) == 2 && len(evRet[*pktSubAck]("select", 0, 4).Codes) != n0 ==>
 //@        result1 != nil && asError(result1) != nil && asError(result1).Err == ErrInvalidSubAck && evCount("Transport.Close") == 1
-//@   ensures[C07] granted: result1 == nil ==> len(result0) == n0 && len(evRet[*pktSubAck]("select", 0, 3).Codes) == n0 &&
-//@        forall(0, n0, func(j int) bool { return result0[j].QoS == QoS(evRet[*pktSubAck]("select", 0, 3).Codes[j]) }) && sameSlice(result0, subs)
+//@   ensures[C07] granted: result1 == nil ==> len(result0) == n0 && len(evRet[*pktSubAck]("select", 0, 4).Codes) == n0 &&
+//@        forall(0, n0, func(j int) bool { return result0[j].QoS == QoS(evRet[*pktSubAck]("select", 0, 4).Codes[j]) }) && sameSlice(result0, subs)
 //@   ensures[C01,C19] interrupted: sig0 != nil && result1 != nil && result1 != io.EOF && !(evCount("select") == 1 && evRet[int]("select", 0, 0) == 2) ==> isRetryErr(result1)
 //@   ensures[C01,C19] handle: isRetryErr(result1) ==> closureIs(retryOf(result1), "subscribeImpl$1") && sameSlice(*closureVar[*[]Subscription](retryOf(result1), "subscribeImpl$1", 0), subs)
 //@   ensures[C11] waitset: evCount("select") == 1 ==> evArg[chan struct{}]("select", 0, 0) == c.connClosed &&
@@ -160,7 +169,7 @@ package mqtt
 //@ func subscribeImpl$1
 //@   mode int
 //@   props C01 C19
-//@   requires cli != nil && ctx != nil && cli.Transport != nil
+//@   requires cli != nil && ctx != nil && cli.Transport != nil && subscribable(subs)
 //@   assigns cli.idLast
 //@   ensures[C01,C19] redo: evCount("subscribeImpl") == 1 && evArg[*BaseClient]("subscribeImpl", 0, 1) == cli &&
 //@        sameSlice(evArg[[]Subscription]("subscribeImpl", 0, 2), subs) && result == evRet[error]("subscribeImpl", 0, 1)
@@ -168,7 +177,7 @@ package mqtt
 //@ func unsubscribeImpl
 //@   mode int
 //@   props C01 C07 C11 C15 C19
-//@   requires c != nil && ctx != nil && c.Transport != nil
+//@   requires c != nil && ctx != nil && c.Transport != nil && unsubscribable(subs)
 //@   assigns c.idLast
 //@   let sig0 *signaller = c.sig
 //@   ensures[C15] one_id: evCount("(*BaseClient).newID") == 1
@@ -193,7 +202,7 @@ package mqtt
 //@ func unsubscribeImpl$1
 //@   mode int
 //@   props C01 C19
-//@   requires cli != nil && ctx != nil && cli.Transport != nil
+//@   requires cli != nil && ctx != nil && cli.Transport != nil && unsubscribable(subs)
 //@   assigns cli.idLast
 //@   ensures[C01,C19] redo: evCount("unsubscribeImpl") == 1 && evArg[*BaseClient]("unsubscribeImpl", 0, 1) == cli &&
 //@        sameSlice(evArg[[]string]("unsubscribeImpl", 0, 2), subs) && result == evRet[error]("unsubscribeImpl", 0, 0)
